@@ -13,7 +13,7 @@ RULE = ("well-formed start poses (2-D and 3-D, 1–3 components, 1–2 people, 2
         "dimensions ⇔ confidence 0; NumPy sequences end with write → read → compare (up to float32); the modelled prefix of NumPy sequences is run through the Lean model and shapes / missing patterns compared step by step; "
         "non-trivial = sequence with ≥ 2 executed steps, distinct by JSON of (pose, operations)")
 ASSUMPTIONS = ["an operation that raises ends the sequence and is counted (distribution: raises:*), not reported: the property constrains the poses that are returned",
-               "tensorflow sequences run in a child process",
+               "tensorflow sequences run in a child process; augment2d (tf.matmul) is not chosen on tensorflow bodies of shape (F > 1, 1, N, D): native crash in this sandbox",
                "preconditions are evaluated by the harness on the current pose exactly as the property words them"]
 
 
